@@ -47,8 +47,8 @@ CLAIMED = {
          "volume_n = V_pos[n div n_b] * V_rot[n mod n_b] * f^3.", "§5 C02"),
  "C19": ("Exhaustive over the size box (n_b,n_o in 1..5, n_t in 1..4; thorough 1..7 / 1..5, plus the non-default algorithms) x both position modes x "
          "five getters: the REAL constructors, name/translation parsers, generators, the size threshold choosing the cell model and the real "
-         "MikroVoronoi run; Qhull-backed Voronoi classes are contract stubs with symbolic positive values. On every feasible path each getter returns "
-         "the right shape (volumes proved positive) or raises ValueError (Cartesian n_o<3: QhullError allowed). Sizes are enumerated, so the solver's "
+         "MikroVoronoi run; in the default mode the Qhull-backed Voronoi classes are contract stubs with symbolic positive values; in Cartesian mode the position part is concrete and the real Qhull classes run (only the 4-D rotation cells are stubs). On every feasible path each getter returns "
+         "the right shape or raises ValueError (Cartesian n_o<3: QhullError allowed). Sizes are enumerated, so the solver's "
          "share is small here (stub values only) -- said plainly in DESIGN; the failing mechanisms are in molgri's Python dispatch, which the run reaches. "
          "Counterexamples are replayed through the public API with real Qhull.", "§5 C19"),
  "C10": ("For molecules of 1-2 + 1-4 atoms and 1-4 frames (thorough 3 + 6 atoms, 6 frames), ALL real atom positions, positive masses and an "
